@@ -39,6 +39,24 @@ ALL_EXT_IDS_2 = {"mid": 15, "repaired_rtp_stream_id": 16, "rtp_stream_id": 200, 
                  "transmission_offset": 255, "audio_level": 17, "transport_sequence_number": 100}
 
 
+class _DetOs:
+    """Stands in for `os` inside aiortc.rtp while a case is generated: RTP padding bytes come from os.urandom, and a
+    generated case must be a pure function of the seed."""
+
+    @staticmethod
+    def urandom(n: int) -> bytes:
+        return bytes((i * 37 + 11) & 0xFF for i in range(n))
+
+
+def det_serialize(pkt, ext_map) -> bytes:
+    saved = R.os
+    R.os = _DetOs  # type: ignore[assignment]
+    try:
+        return pkt.serialize(ext_map)
+    finally:
+        R.os = saved
+
+
 # --------------------------------------------------------------------------
 # byte-level mutation of valid packets
 
@@ -120,9 +138,9 @@ def parser_case(draw, tier="quick"):
         c = draw(rtp_case(tier))
         c["ext"]["ids"] = dict(ALL_EXT_IDS if target != "rtp2" else ALL_EXT_IDS_2)
         try:
-            base = make_rtp(c).serialize(make_map(c["ext"]["ids"]))
+            base = det_serialize(make_rtp(c), make_map(c["ext"]["ids"]))
         except Exception:
-            base = make_rtp({**c, "ext": {"ids": {}, "values": {}}}).serialize()
+            base = det_serialize(make_rtp({**c, "ext": {"ids": {}, "values": {}}}), R.HeaderExtensionsMap())
         if mode == "crafted":
             # extension block with arbitrary (id, length, value) elements: wrong sizes for the configured URIs
             one = target != "rtp2"
@@ -548,7 +566,7 @@ def rtp_event(draw, counters):
             pkt.extensions.abs_send_time = draw(st.integers(0, 0xFFFFFF))
         if draw(st.integers(0, 3)) == 0:
             pkt.extensions.mid = draw(st.sampled_from(["0", "1", "xx"]))
-        ev.update(t="rtp", data=pkt.serialize(make_map(ALL_EXT_IDS)).hex())
+        ev.update(t="rtp", data=det_serialize(pkt, make_map(ALL_EXT_IDS)).hex())
     elif kind in ("mutant", "crafted-ext", "random"):
         pc = draw(parser_case().filter(lambda c: c["target"] == "rtp"))
         data = bytearray(bytes.fromhex(pc["data"]))
